@@ -58,8 +58,9 @@ Definition put_codes (maxdef n nn : N) (lv : option (list N)) (ix : list N) : rs
 Section Cat.
 Variable decompress : Z -> N -> bytes -> option bytes.
 
-Definition rd_page_v2_cat (selfmade : bool) (ak : N) (cd : coldesc) (codec : Z) (h : dph2)
-  (usize csize : N) (payload : bytes) : rs (list Z) :=
+(* everything read_data_page_v2 does before it looks at the index runs: (num_values, num_nulls, levels, bit width, bytes behind it) *)
+Definition cat_prefix (cd : coldesc) (codec : Z) (h : dph2) (usize csize : N) (payload : bytes)
+  : rs (N * N * option (list N) * N * bytes) :=
   let e := d2_enc h in
   if negb ((e =? E_PLAIN_DICT) || (e =? E_RLE_DICT) || (e =? E_RLE) || (e =? E_PLAIN) || (e =? E_DELTA))%Z
   then RUns "NotImplementedError" else
@@ -83,13 +84,18 @@ Definition rd_page_v2_cat (selfmade : bool) (ak : N) (cd : coldesc) (codec : Z) 
   let! raw := (if comp && negb (codec =? 0)%Z then of_opt "decompression failed" (decompress codec ups body) else ROk body) in
   let! wr := (if n_values =? 0 then ROk (0, raw)
               else match raw with [] => RBad "read_byte past the end" | w :: r => ROk (w, r) end) in
-  let '(bw, r) := wr in
-  let put := put_codes (cd_maxdef cd) n nn lv in
+  ROk (n, nn, lv, fst wr, snd wr).
+
+(* the index runs: the fast path for one bit-packed run of whole bytes (behind the layout check), else the hybrid decoder *)
+Definition cat_tail (selfmade : bool) (ak maxdef : N) (x : N * N * option (list N) * N * bytes) : rs (list Z) :=
+  let '(n, nn, lv, bw, r) := x in
+  let n_values := n - nn in
+  let put := put_codes maxdef n nn lv in
   if ((bw =? 8) || (bw =? 16) || (bw =? 32)) && (selfmade && guard_idx n_values r) then
     match uleb_dec r with
     | None => RBad "varint past the end"
     | Some (_, out) =>
-      if lenN out =? n * ak then
+      if (lenN out =? n * ak) && (bw =? 8 * ak) && (nn =? 0) then
         (* the bytes are copied over the codes array as they are *)
         if ak =? 0 then RBad "codes array without an item size" else
         match raw_codes ak (N.to_nat n) out [] with
@@ -98,6 +104,7 @@ Definition rd_page_v2_cat (selfmade : bool) (ak : N) (cd : coldesc) (codec : Z) 
         end
       else
         let k := bw / 8 in
+        let out := takeN (n_values * k) out in        (* a full last group may hold more codes than the page has values *)
         if negb (lenN out mod k =? 0) then RBad "ValueError: array size must be a multiple of the element size" else
         match raw_codes k (N.to_nat (lenN out / k)) out [] with
         | Some ix => put ix
@@ -112,6 +119,10 @@ Definition rd_page_v2_cat (selfmade : bool) (ak : N) (cd : coldesc) (codec : Z) 
                   end
                 else ROk (repN 0 n_values [])) in
     put ix.
+
+Definition rd_page_v2_cat (selfmade : bool) (ak : N) (cd : coldesc) (codec : Z) (h : dph2)
+  (usize csize : N) (payload : bytes) : rs (list Z) :=
+  let! x := cat_prefix cd codec h usize csize payload in cat_tail selfmade ak (cd_maxdef cd) x.
 
 Fixpoint vals_eqb (a b : list value) : bool :=
   match a, b with
